@@ -277,28 +277,43 @@ Proof.
   - split; [|discriminate]. destruct (decode_bech32_string s 1) as [[h' p']|]; cbn [bind]; discriminate.
 Qed.
 
-(* with --witness-version 0 the encoder is segwit_addr *)
-Theorem cli_encode_v0_is_segwit_addr net hrp data : In (net, hrp) networks ->
-  cli_bech32_encode hrp data (Some 0) false = segwit_addr data 0 net.
+(* with --witness-version v, 0 <= v <= 16, the encoder is segwit_addr (Bech32 for 0, Bech32m for 1..16) *)
+Theorem cli_encode_is_segwit_addr net hrp v data : In (net, hrp) networks -> 0 <= v <= 16 ->
+  cli_bech32_encode hrp data (Some v) false = segwit_addr data v net.
 Proof.
-  intros HN.
-  assert (E : segwit_addr data 0 net = bech32_encode hrp data (chars_slice 0) 1).
-  { unfold segwit_addr. change (in_range_Z 0 0 17) with true. change (0 =? 0) with true.
+  intros HN Hv.
+  assert (R : in_range_Z v 0 17 = true).
+  { unfold in_range_Z. replace (0 <=? v) with true by (symmetry; apply Z.leb_le; lia).
+    replace (v <? 17) with true by (symmetry; apply Z.ltb_lt; lia). reflexivity. }
+  assert (E : segwit_addr data v net
+              = bech32_encode hrp data (chars_slice v) (if v =? 0 then 1 else BECH32M_CONST)).
+  { unfold segwit_addr. rewrite R.
     apply network_cases in HN as [[-> ->] | [[-> ->] | [-> ->]]].
     - change (bytes_eqb net_mainnet net_mainnet) with true. reflexivity.
     - change (bytes_eqb net_testnet net_mainnet) with false. change (bytes_eqb net_testnet net_testnet) with true.
       reflexivity.
     - change (bytes_eqb net_regtest net_mainnet) with false. change (bytes_eqb net_regtest net_testnet) with false.
       change (bytes_eqb net_regtest net_regtest) with true. reflexivity. }
-  rewrite E. unfold cli_bech32_encode. destruct (bech32_encode hrp data (chars_slice 0) 1); reflexivity.
+  rewrite E. unfold cli_bech32_encode. rewrite R. cbn [bind].
+  destruct (bech32_encode hrp data (chars_slice v) (if v =? 0 then 1 else BECH32M_CONST)); reflexivity.
 Qed.
 
-(* for witness versions 1..16 it is NOT: the checksum constant stays 1 (Bech32) instead of Bech32m, so the
-   produced string is not a valid segwit address.  Witness: bits bech32 --hrp bc --wv 1 on 751e *)
-Theorem cli_encode_v1_refuted :
-  exists data a, cli_bech32_encode hrp_bc data (Some 1) false = Ok a
-                 /\ segwit_addr data 1 net_mainnet <> Ok a /\ spec_decode a = None /\ is_segwit_addr a = Ok false.
+(* a witness version outside 0..16 is refused (ValueError), whatever the hrp and the data are *)
+Theorem cli_encode_refuses_version hrp data v pr : v < 0 \/ 16 < v ->
+  cli_bech32_encode hrp data (Some v) pr = Err ValueE.
 Proof.
-  exists [x75; x1e]. eexists. split; [vm_compute; reflexivity|].
-  split; [vm_compute; discriminate|split; vm_compute; reflexivity].
+  intros Hv. unfold cli_bech32_encode, in_range_Z.
+  destruct (Z.leb_spec 0 v), (Z.ltb_spec v 17); cbn [andb bind]; try reflexivity. lia.
+Qed.
+
+(* hence every in-range use yields a valid segwit address that decodes to the inputs *)
+Theorem cli_encode_roundtrip net hrp v prog : In (net, hrp) networks -> 0 <= v <= 16 ->
+  program_length_ok v (length prog) = true ->
+  exists addr, cli_bech32_encode hrp prog (Some v) false = Ok addr
+               /\ spec_decode addr = Some (hrp, v, prog)
+               /\ cli_bech32_decode addr = Ok (CliSegwit hrp v prog).
+Proof.
+  intros HN Hv HP. destruct (segwit_roundtrip net hrp v prog HN Hv HP) as (addr & SA & _ & _ & _ & SD & _).
+  exists addr. rewrite (cli_encode_is_segwit_addr net hrp v prog HN Hv). repeat split; auto.
+  now apply cli_decode_segwit_iff.
 Qed.
